@@ -74,12 +74,17 @@ P02_NoOverdraft(w, ev, w2, h, r) ==
         Arg(ev,3).q <= ValAt(w, ev.caller, Arg(ev,1).h \o NBHex(Arg(ev,2).n))
 
 \* C03
+\* the freeze state changed: a flag appeared, or a flag disappeared while its entry is still there (or was a fungible entry: the code
+\* keeps a frozen fungible entry at balance zero).  The flag of ONE NFT / SFT holding ends with the holding: when the whole quantity
+\* leaves (only possible under the return-after-error exemption) the entry is deleted, metadata, flag and all (DESIGN.md 13.10, 17)
+EndedHolding(w, w2, p) == w.acct[p[1]].esdt[p[2]].hm /\ (p[1] \notin Accts(w2) \/ p[2] \notin DOMAIN w2.acct[p[1]].esdt)
+FrozenChanged(w, w2) == (FrozenSet(w2) \ FrozenSet(w)) # {} \/ (\E p \in FrozenSet(w) \ FrozenSet(w2) : ~EndedHolding(w, w2, p))
 \* an accepted role-gated call's caller holds THAT role for THAT token (plus add-quantity for a create of more than one); role lists, pause and freeze state change only by the system contract (or the hand-over message); owner / reward / user-name change only for the owner / a DNS address
 P03_Authority(w, ev, w2, h, r) ==
   /\ (Call(ev) /\ IsOk(ev) /\ ev.fn \in RoleGated) =>
         /\ RoleFor(ev.fn) \in Range(RolesOf(w.acct[ev.caller], Arg(ev,1).h))
         /\ (ev.fn = "ESDTNFTCreate" /\ MoreThanOne(Arg(ev,2).q)) => RoleAddQ \in Range(RolesOf(w.acct[ev.caller], Arg(ev,1).h))
-  /\ (RolesMap(w2) # RolesMap(w) \/ w2.paused # w.paused \/ FrozenSet(w2) # FrozenSet(w)) =>
+  /\ (RolesMap(w2) # RolesMap(w) \/ w2.paused # w.paused \/ FrozenChanged(w, w2)) =>
         (Call(ev) /\ (ev.caller = ESDTSC \/ (ev.a = "deliver" /\ ev.fn = "ESDTNFTCreateRoleTransfer")))
   /\ (Call(ev) /\ IsOk(ev) /\ ev.fn = "ESDTWipe") => ev.caller = ESDTSC
   /\ \A a \in Accts(w) \cap Accts(w2) :
